@@ -518,6 +518,11 @@ def plot_call(t, name, kw):
     return None
 
 
+def _plot_job(job):
+    ns, mixed, name, kw = job
+    return plot_call(plot_triangle(ns, mixed), name, kw)
+
+
 def vega_monitor(ctx):
     """NOT a decision procedure (Altair / Vega-Lite are outside the model): every plot function is called with its
     default and with each non-default keyword option at boundary values on 1-3-slice triangles; each call must
@@ -538,8 +543,11 @@ def vega_monitor(ctx):
                         continue      # all-sample triangles: hide_samples leaves nothing to plot
                     plan.append((ns, mixed, t, name, kw))
     res, unsupported = {}, {}
-    for ns, mixed, t, name, kw in plan:
-        r = plot_call(t, name, kw)
+    from concurrent.futures import ProcessPoolExecutor
+
+    with ProcessPoolExecutor(max_workers=8) as ex:        # independent, CPU-bound Altair calls
+        results = list(ex.map(_plot_job, [(ns, mixed, name, kw) for ns, mixed, _, name, kw in plan], chunksize=4))
+    for (ns, mixed, t, name, kw), r in zip(plan, results):
         key = f"{name}({json.dumps(kw, sort_keys=True)})/{ns}-slice/{'mixed' if mixed else 'samples'}"
         ctx.count(evaluations=1)
         if name in UNSUPPORTED_AT_BASELINE:
@@ -659,14 +667,23 @@ def hardening_checks(ctx):
             except Exception as ex:  # noqa: BLE001
                 fails.append((f"build_plot_data: {label}", f"raised {type(ex).__name__}: {ex}"[:200], None))
         # K: non-default options
+        names = [bp._to_snake_case(n) for n in bp.COMMON_METRIC_DICT]
         try:
             full = bp.build_plot_data(t, remove_empties=False)
-            names = [bp._to_snake_case(n) for n in bp.COMMON_METRIC_DICT]
             for r0, r1 in zip(base, full):
                 if [k for k in r1 if k in names] != names or any((r1[k] != {}) != (k in r0) for k in names) \
                         or any(rec_canon(r1[k]) != rec_canon(r0[k]) for k in names if k in r0):
                     fails.append(("build_plot_data(remove_empties=False)", "absent metrics must be {} and present ones unchanged", None))
                     break
+            ctx.hist("probe:K1-remove_empties-false-ok")
+        except KeyError as ex:
+            ctx.hist("probe:K1-remove_empties-false-KeyError")
+            ctx.violation("impl-violation", f"build_plot_data(t, remove_empties=False) raises KeyError: {ex} (a cell lacks some "
+                          "built-in metric, as practically every cell does)", {"triangle": tri_spec(t), "remove_empties_probe": True},
+                          found_input=True, finding_class={"kind": "build_plot_data_remove_empties_false_keyerror"})
+        except Exception as ex:  # noqa: BLE001
+            fails.append(("build_plot_data(remove_empties=False)", f"raised {type(ex).__name__}: {ex}"[:200], None))
+        try:
             flat = bp.build_plot_data(t, flat=True)
             for r0, r2 in zip(base, flat):
                 exp = {}
@@ -697,9 +714,8 @@ def hardening_checks(ctx):
             a = bp.plot_growth_curve(tp, seed=0, **kw).to_dict(validate=True)
             b = bp.plot_growth_curve(tp, seed=0, **kw).to_dict(validate=True)
             c = bp.plot_growth_curve(tp, **kw, seed=12345).to_dict(validate=True)
-            if json.dumps(a, sort_keys=True, default=str) != json.dumps(b, sort_keys=True, default=str):
-                fails.append(("plot_growth_curve(seed=0) twice", "charts differ: seed 0 is not honoured",
-                              {"method": "plot_growth_curve", "kwargs": dict(kw, seed=0), "n_slices": 1, "mixed": False}))
+            # (whether equal seeds draw equal lines is not part of C20's statement: recorded, not judged)
+            ctx.hist("info:plot_growth_curve-same-seed-same-chart-" + str(json.dumps(a, sort_keys=True, default=str) == json.dumps(b, sort_keys=True, default=str)))
             ctx.hist("hardening:seed0-vs-other-" + ("differs" if json.dumps(a, sort_keys=True, default=str) != json.dumps(c, sort_keys=True, default=str) else "same"))
         except Exception as ex:  # noqa: BLE001
             fails.append(("plot_growth_curve(seed=0)", f"raised {type(ex).__name__}: {ex}"[:200], None))
@@ -888,6 +904,18 @@ def shrink(t):
 
 
 def replay(ctx, data):
+    if data.get("remove_empties_probe"):
+        import bermuda.plot as bp
+
+        try:
+            with warnings.catch_warnings():
+                warnings.simplefilter("ignore")
+                r = bp.build_plot_data(spec_tri(data["triangle"]), remove_empties=False)
+            print(f"build_plot_data(t, remove_empties=False): {len(r)} records: OK")
+            return 0
+        except Exception as ex:  # noqa: BLE001
+            print(f"build_plot_data(t, remove_empties=False) raises {type(ex).__name__}: {ex}")
+            return 1
     if data.get("cache_probe"):
         class _C:
             def hist(self, *a, **k): pass
